@@ -110,7 +110,7 @@ func newVTX(c *Ctx, rule string) *vtx {
 		"tty.VT": x.vt, "VT.cons": x.cons, "VT.data": x.data, "VT.cursorX": x.cursorX, "VT.cursorY": x.cursorY, "VT.viewportY": x.viewportY,
 		"VT.dataOffset": x.dataOffset, "VT.state": x.state, "VT.viewportWidth": x.viewportWidth, "VT.viewportHeight": x.viewportHeight,
 		"VT.termWidth": x.termWidth, "VT.termHeight": x.termHeight, "VT.curFg": x.curFg, "VT.curBg": x.curBg, "VT.defaultFg": x.defaultFg,
-		"VT.defaultBg": x.defaultBg, "VT.tabWidth": x.tabWidth, "VT.WriteByte": x.writeByte, "VT.doWrite": x.doWrite, "VT.cr": x.cr, "VT.lf": x.lf,
+		"VT.defaultBg": x.defaultBg, "VT.tabWidth": x.tabWidth, "VT.WriteByte": x.writeByte, "VT.doWrite": x.doWrite, "VT.lf": x.lf,
 		"VT.SetCursorPosition": x.setCursor, "VT.updateDataOffset": x.update, "VT.SetState": x.setState, "VT.AttachTo": x.att, "tty.StateActive": sa,
 	} {
 		if isNilIface(v) {
@@ -255,7 +255,31 @@ func (x *vtx) c17r1() {
 		}
 		c.ok("C17.R1", key, "documented action on every path, no other terminal action", g.posOf(e.From))
 	}
+	// carriage return: the cursor goes to column one (through the helper that does
+	// that, or in place when there is no such helper)
+	colOne := func(gg *IG, n int) bool {
+		st, ok := gg.Ins[n].(*ssa.Store)
+		if !ok {
+			return false
+		}
+		f, rest := lastField(accessPath(st.Addr))
+		k, isK := constInt64(st.Val)
+		return f == x.cursorX && rest == "" && isK && k == 1
+	}
 	isCR := callWith(x.cr, nil)
+	if x.cr == nil {
+		isCR = func(n int) bool { return colOne(g, n) }
+	} else {
+		gc := newIG(m, x.cr, nil)
+		okBody, nst := true, 0
+		for _, sn := range x.storesOf(gc, x.cursorX) {
+			nst++
+			if !colOne(gc, sn) {
+				okBody = false
+			}
+		}
+		c.check(okBody && nst > 0, "C17.R1", "cr-body "+m.fnName(x.cr), "the carriage-return helper stores 1 into cursorX", "the carriage-return helper does not put the cursor into column one", m.pos(x.cr.Pos()))
+	}
 	checkCase("CR", cases[13], isCR, isCR)
 	isLF := callWith(x.lf, func(a []ssa.Value) bool { return boolArg(a[0], true) })
 	checkCase("LF", cases[10], isLF, isLF)
